@@ -98,6 +98,10 @@ def explore_table(args):
     ex = Explorer(max_steps=400_000)
     ks = [z3.BitVec(f"k{i}", 8) for i in range(L)]
     for k in ks: ex.add_base(z3.ULE(k, nops))
+    if which == "climber-wf":
+        # only the well-formed shape operand (operator operand)*: longer sequences at the price of the ill-formed ones
+        which = "climber"
+        for i, k in enumerate(ks): ex.add_base(k == 0 if i % 2 == 0 else k != 0)
     rows = []; fns = set()
 
     def body(W):
@@ -197,6 +201,10 @@ def run(ctx):
     for levels, table in c2:
         for L in (1, 3, 5) + ((7,) if not ctx.quick else ()):
             jobs.append((P, levels, table, L, "climber"))
+        # three operators between four operands (low, high, in-between needs them), and four between five: well-formed shape only
+        if len(table) == 3:
+            jobs.append((P, levels, table, 7, "climber-wf"))
+            if not ctx.quick: jobs.append((P, levels, table, 9, "climber-wf"))
     t0 = time.time()
     res = par.pmap(explore_table, jobs, NCPU)
     errs = [(j[1:], r[1]) for j, r in zip(jobs, res) if r[0] == "err"]
@@ -221,7 +229,7 @@ def run(ctx):
     samples = [{"parser": r["which"], "levels": r["levels"], "affixes": r["table"], "kinds": row["kinds"], "tree": row["got"]} for r in results[::max(1, len(results) // 6)][:6] for row in r["rows"][-1:] if row.get("kinds")]
     cov = {"states": paths, "transitions": wf, "traces_validated_against_impl": 0, "samples": samples, "exhaustive": False,
            "functions_encoded": sorted(set(f for r in results for f in r["fns"])),
-           "bounds": f"PrattParser: all tables with 2 and with 3 operators (3-operator tables with sequences up to 4 tokens in the quick tier){'' if ctx.quick else ' + 150 seeded with 4'} (every affix/associativity per operator, every split into levels, built through the real Op::*/BitOr/op calls) x all sequences of 1..{Lq} tokens with symbolic kinds; ConstPrattParser: same tables, length {min(Lq, 5)}; PrecClimber: all infix-only tables with 2-3 operators, one associativity per level, lengths 1,3,5{'' if ctx.quick else ',7'}",
+           "bounds": f"PrattParser: all tables with 2 and with 3 operators (3-operator tables with sequences up to 4 tokens in the quick tier){'' if ctx.quick else ' + 150 seeded with 4'} (every affix/associativity per operator, every split into levels, built through the real Op::*/BitOr/op calls) x all sequences of 1..{Lq} tokens with symbolic kinds; ConstPrattParser: same tables, length {min(Lq, 5)}; PrecClimber: all infix-only tables with 2-3 operators, one associativity per level, lengths 1,3,5{'' if ctx.quick else ',7'} with every token kind symbolic, and the well-formed shape operand (operator operand)* of length 7{'' if ctx.quick else ' and 9'} for the 3-operator tables",
            "queries_discharged": sum(r["queries"] for r in results), "solver_time_s": round(sum(r["solver_s"] for r in results), 2), "events": events[:10],
            "explanation": "states = explored paths (token-kind classes); transitions = well-formed sequences whose tree was compared with the shunting-yard reference"}
     write_evidence(ctx, "model_checking", cov,
